@@ -169,7 +169,7 @@ def res_record(name, res, heap, passthrough=()):
             s = snap(name, own, heap)
         s["lazy"] = lazy
         s["val2"] = s["val"]
-        return s, arrays + coord_arrays(own)
+        return s, arrays            # a Dataset shares its coordinate variables with its members by construction: not probed
     arrays = result_arrays(res)
     kind = "table" if isinstance(res, pd.DataFrame) or type(res).__module__.startswith("dask") else (
         "tuple" if isinstance(res, (tuple, list)) else "scalar")
